@@ -394,3 +394,419 @@ Proof.
   intros Hn Hr. destruct (lru_run_inv n h Hn Hr) as (o & Ho & Hnd & _).
   rewrite Ho. apply lru_idem_NoDup. exact Hnd.
 Qed.
+
+(** * Part 4: PLRU victim — the descent loop follows the tree bits *)
+Lemma pow2_S d : 2 ^ Z.of_nat (S d) = 2 * 2 ^ Z.of_nat d.
+Proof. rewrite Nat2Z.inj_succ, Z.pow_succ_r by lia. reflexivity. Qed.
+
+Lemma pow2_pos d : 0 < 2 ^ Z.of_nat d.
+Proof. apply Z.pow_pos_nonneg; lia. Qed.
+
+Lemma plru_depth_pow2 d : plru_depth (2 ^ Z.of_nat d) = d.
+Proof. unfold plru_depth. rewrite Z.log2_pow2 by lia. apply Nat2Z.id. Qed.
+
+Lemma tree_victim_range d t : 0 <= tree_victim d t < 2 ^ Z.of_nat d.
+Proof.
+  revert t; induction d as [|d IH]; intros t.
+  - cbn [tree_victim]. change (2 ^ Z.of_nat 0) with 1. destruct t; lia.
+  - pose proof (pow2_pos d) as HP. rewrite pow2_S. destruct t as [|b l r]; cbn [tree_victim]; [lia|].
+    pose proof (IH l). pose proof (IH r). destruct b; lia.
+Qed.
+
+Lemma victim_loop_tree bits d : forall i,
+  plru_victim_loop d i bits = 2 ^ Z.of_nat d * (i + 1) - 1 + tree_victim d (heap_tree bits d i).
+Proof.
+  induction d as [|d IH]; intros i.
+  - cbn [plru_victim_loop heap_tree tree_victim]. change (2 ^ Z.of_nat 0) with 1. lia.
+  - cbn [plru_victim_loop heap_tree tree_victim]. rewrite pow2_S.
+    set (P := 2 ^ Z.of_nat d) in *. rewrite IH.
+    destruct (nthZ bits i false); lia.
+Qed.
+
+Lemma plru_victim_proof d bits :
+  pol_victim (PLRU (2 ^ Z.of_nat d) bits) = tree_victim d (heap_tree bits d 0).
+Proof. cbn [pol_victim]. rewrite plru_depth_pow2, victim_loop_tree. lia. Qed.
+
+(** * Part 5: PLRU access — the bottom-up loop is the top-down tree update *)
+(* 1-based node numbers: node j has children 2j, 2j+1 and parent j/2 *)
+Definition upd (f : Z -> bool) (c : Z) (v : bool) : Z -> bool := fun j => if j =? c then v else f j.
+
+Fixpoint acc1 (d : nat) (x : Z) (f : Z -> bool) : Z -> bool :=
+  match d with
+  | O => f
+  | S d' => acc1 d' (x / 2) (upd f (x / 2) (x mod 2 =? 0))
+  end.
+
+Fixpoint ht1 (f : Z -> bool) (d : nat) (c : Z) : ptree :=
+  match d with
+  | O => Leaf
+  | S d' => Node (f c) (ht1 f d' (2 * c)) (ht1 f d' (2 * c + 1))
+  end.
+
+Definition fbits (bits : list bool) : Z -> bool := fun j => nthZ bits (j - 1) false.
+
+(* j lies in the subtree of depth d rooted at c (leaf level excluded) *)
+Definition insub (d : nat) (c j : Z) : Prop :=
+  exists e, (e < d)%nat /\ 2 ^ Z.of_nat e * c <= j < 2 ^ Z.of_nat e * (c + 1).
+
+Lemma insub_root d c : insub (S d) c c.
+Proof. exists O. change (2 ^ Z.of_nat 0) with 1. split; lia. Qed.
+
+Lemma insub_left d c j : insub d (2 * c) j -> insub (S d) c j.
+Proof.
+  intros (e & He & Hj). exists (S e). split; [lia|]. rewrite pow2_S.
+  pose proof (pow2_pos e). set (P := 2 ^ Z.of_nat e) in *. lia.
+Qed.
+
+Lemma insub_right d c j : insub d (2 * c + 1) j -> insub (S d) c j.
+Proof.
+  intros (e & He & Hj). exists (S e). split; [lia|]. rewrite pow2_S.
+  pose proof (pow2_pos e). set (P := 2 ^ Z.of_nat e) in *. lia.
+Qed.
+
+Lemma insub_mono d c j : insub d c j -> insub (S d) c j.
+Proof. intros (e & He & Hj). exists e. split; [lia | exact Hj]. Qed.
+
+Lemma insub_ge d c j : 1 <= c -> insub d c j -> c <= j.
+Proof.
+  intros Hc (e & He & Hj). pose proof (pow2_pos e). set (P := 2 ^ Z.of_nat e) in *. nia.
+Qed.
+
+Lemma pow2_lt e e' : (e < e')%nat -> 2 * 2 ^ Z.of_nat e <= 2 ^ Z.of_nat e'.
+Proof.
+  intros Hlt. rewrite <- pow2_S. apply Z.pow_le_mono_r; lia.
+Qed.
+
+Lemma insub_siblings d c j : 1 <= c -> insub d (2 * c) j -> insub d (2 * c + 1) j -> False.
+Proof.
+  intros Hc (e & He & Hj) (e' & He' & Hj').
+  pose proof (pow2_pos e) as HP. pose proof (pow2_pos e') as HQ.
+  destruct (lt_eq_lt_dec e e') as [[Hlt|Heq]|Hgt].
+  - pose proof (pow2_lt e e' Hlt) as Hle.
+    set (P := 2 ^ Z.of_nat e) in *. set (Q := 2 ^ Z.of_nat e') in *. nia.
+  - subst e'. lia.
+  - pose proof (pow2_lt e' e Hgt) as Hle.
+    set (P := 2 ^ Z.of_nat e) in *. set (Q := 2 ^ Z.of_nat e') in *. nia.
+Qed.
+
+Lemma ht1_ext d : forall c f g, (forall j, insub d c j -> f j = g j) -> ht1 f d c = ht1 g d c.
+Proof.
+  induction d as [|d IH]; intros c f g Hfg; cbn [ht1]; [reflexivity|].
+  rewrite (Hfg c (insub_root d c)). f_equal; apply IH; intros j Hj; apply Hfg.
+  - apply insub_left; exact Hj.
+  - apply insub_right; exact Hj.
+Qed.
+
+Lemma acc1_ext d : forall x f g, (forall j, 1 <= j -> f j = g j) ->
+  forall j, 1 <= j -> acc1 d x f j = acc1 d x g j.
+Proof.
+  induction d as [|d IH]; intros x f g Hfg j Hj; cbn [acc1]; [apply Hfg; exact Hj|].
+  apply IH; [|exact Hj]. intros j' Hj'. unfold upd. destruct (j' =? x / 2); [reflexivity | apply Hfg; exact Hj'].
+Qed.
+
+Lemma div2_pow x d : x / 2 / 2 ^ Z.of_nat d = x / 2 ^ Z.of_nat (S d).
+Proof. pose proof (pow2_pos d). rewrite Z.div_div by lia. rewrite pow2_S. reflexivity. Qed.
+
+Lemma div_uniq a b q r : 0 <= r < b -> a = b * q + r -> a / b = q.
+Proof. intros Hr E. symmetry. apply Z.div_unique with r; [left; exact Hr | exact E]. Qed.
+
+(* the last iteration of the loop writes the topmost node *)
+Lemma acc1_snoc d : forall x f j,
+  acc1 (S d) x f j = upd (acc1 d x f) (x / 2 ^ Z.of_nat (S d)) (x / 2 ^ Z.of_nat d mod 2 =? 0) j.
+Proof.
+  induction d as [|d IH]; intros x f j.
+  - cbn [acc1]. change (2 ^ Z.of_nat 1) with 2. change (2 ^ Z.of_nat 0) with 1.
+    rewrite Z.div_1_r. reflexivity.
+  - change (acc1 (S (S d)) x f j) with (acc1 (S d) (x / 2) (upd f (x / 2) (x mod 2 =? 0)) j).
+    rewrite IH. rewrite !div2_pow. reflexivity.
+Qed.
+
+(* the loop only writes inside the subtree that contains its starting node *)
+Lemma acc1_frame d : forall c x f j,
+  2 ^ Z.of_nat d * c <= x < 2 ^ Z.of_nat d * (c + 1) -> ~ insub d c j -> acc1 d x f j = f j.
+Proof.
+  induction d as [|d IH]; intros c x f j Hx Hj; cbn [acc1]; [reflexivity|].
+  rewrite pow2_S in Hx. pose proof (pow2_pos d) as HP.
+  assert (Hx2 : 2 ^ Z.of_nat d * c <= x / 2 < 2 ^ Z.of_nat d * (c + 1)).
+  { set (P := 2 ^ Z.of_nat d) in *. lia. }
+  rewrite (IH c) by (try exact Hx2; intros Hin; apply Hj; apply insub_mono; exact Hin).
+  unfold upd. destruct (Z.eqb_spec j (x / 2)) as [E|E]; [|reflexivity].
+  exfalso. apply Hj. exists d. split; [lia|]. rewrite E. exact Hx2.
+Qed.
+
+Lemma acc1_tree d : forall f c k, 1 <= c -> 0 <= k < 2 ^ Z.of_nat d ->
+  ht1 (acc1 d (2 ^ Z.of_nat d * c + k) f) d c = tree_access d k (ht1 f d c).
+Proof.
+  induction d as [|d IH]; intros f c k Hc Hk; [reflexivity|].
+  rewrite pow2_S in *. pose proof (pow2_pos d) as HP.
+  cbn [ht1 tree_access].
+  set (x := 2 * 2 ^ Z.of_nat d * c + k).
+  assert (Hsub : forall c', 2 * c <= c' -> ht1 (acc1 (S d) x f) d c' = ht1 (acc1 d x f) d c').
+  { intros c' Hc'. apply ht1_ext. intros j Hj. rewrite acc1_snoc. unfold upd.
+    apply insub_ge in Hj; [|lia]. rewrite pow2_S.
+    destruct (Z.eqb_spec j (x / (2 * 2 ^ Z.of_nat d))) as [E|E]; [|reflexivity].
+    exfalso. subst x. set (P := 2 ^ Z.of_nat d) in *.
+    assert ((2 * P * c + k) / (2 * P) = c) by (apply div_uniq with k; lia). lia. }
+  rewrite !Hsub by lia.
+  assert (Hroot : acc1 (S d) x f c = (k <? 2 ^ Z.of_nat d)).
+  { rewrite acc1_snoc. unfold upd. rewrite pow2_S. subst x. set (P := 2 ^ Z.of_nat d) in *.
+    assert (E1 : (2 * P * c + k) / (2 * P) = c) by (apply div_uniq with k; lia).
+    rewrite E1, Z.eqb_refl.
+    destruct (Z.ltb_spec k P) as [Hlt|Hge].
+    - assert (E2 : (2 * P * c + k) / P = 2 * c) by (apply div_uniq with k; lia).
+      rewrite E2. replace (2 * c) with (c * 2) by lia. rewrite Z.mod_mul by lia. reflexivity.
+    - assert (E2 : (2 * P * c + k) / P = 2 * c + 1) by (apply div_uniq with (k - P); lia).
+      rewrite E2. replace (2 * c + 1) with (1 + c * 2) by lia. rewrite Z.mod_add by lia. reflexivity. }
+  rewrite Hroot. destruct (Z.ltb_spec k (2 ^ Z.of_nat d)) as [Hlt|Hge]; f_equal.
+  - replace x with (2 ^ Z.of_nat d * (2 * c) + k) by (subst x; lia). apply IH; lia.
+  - apply ht1_ext. intros j Hj. apply (acc1_frame d (2 * c)).
+    + subst x. set (P := 2 ^ Z.of_nat d) in *. lia.
+    + intros Hj'. exact (insub_siblings d c j Hc Hj' Hj).
+  - apply ht1_ext. intros j Hj. apply (acc1_frame d (2 * c + 1)).
+    + subst x. set (P := 2 ^ Z.of_nat d) in *. lia.
+    + intros Hj'. exact (insub_siblings d c j Hc Hj Hj').
+  - replace x with (2 ^ Z.of_nat d * (2 * c + 1) + (k - 2 ^ Z.of_nat d)) by (subst x; lia).
+    apply IH; lia.
+Qed.
+
+(** the model's array against the 1-based function view *)
+Lemma set_nth_length {A} (l : list A) p x : length (set_nth l p x) = length l.
+Proof.
+  revert p; induction l as [|y t IH]; intros p; [reflexivity|].
+  destruct p; cbn [set_nth length]; [|rewrite IH]; reflexivity.
+Qed.
+
+Lemma nth_set_nth {A} (l : list A) p x j d : (p < length l)%nat ->
+  nth j (set_nth l p x) d = if Nat.eqb j p then x else nth j l d.
+Proof.
+  revert p j; induction l as [|y t IH]; intros p j Hp; cbn [length] in Hp; [lia|].
+  destruct p as [|p], j as [|j]; cbn [set_nth nth Nat.eqb]; try reflexivity.
+  apply IH. lia.
+Qed.
+
+Lemma access_loop_length d : forall i bits, length (plru_access_loop d i bits) = length bits.
+Proof.
+  induction d as [|d IH]; intros i bits; cbn [plru_access_loop]; [reflexivity|].
+  rewrite IH. apply set_nth_length.
+Qed.
+
+Lemma heap_tree_ht1 bits d : forall i, heap_tree bits d i = ht1 (fbits bits) d (i + 1).
+Proof.
+  induction d as [|d IH]; intros i; cbn [heap_tree ht1]; [reflexivity|].
+  f_equal.
+  - unfold fbits. rewrite Z.add_simpl_r. reflexivity.
+  - rewrite IH. f_equal. lia.
+  - rewrite IH. f_equal. lia.
+Qed.
+
+Lemma access_loop_acc1 d : forall i bits j,
+  2 ^ Z.of_nat d <= i + 1 -> i + 1 < 2 * (Z.of_nat (length bits) + 1) -> 1 <= j ->
+  fbits (plru_access_loop d i bits) j = acc1 d (i + 1) (fbits bits) j.
+Proof.
+  induction d as [|d IH]; intros i bits j Hlo Hhi Hj; cbn [plru_access_loop acc1]; [reflexivity|].
+  rewrite pow2_S in Hlo. pose proof (pow2_pos d) as HP.
+  assert (Ep : (i - 1) / 2 + 1 = (i + 1) / 2) by lia.
+  rewrite IH; [| | |exact Hj].
+  - rewrite Ep. apply acc1_ext; [|exact Hj]. intros j' Hj'.
+    unfold fbits, upd, nthZ, set_nthZ. rewrite nth_set_nth by lia.
+    destruct (Nat.eqb_spec (Z.to_nat (j' - 1)) (Z.to_nat ((i - 1) / 2))) as [E|E];
+      destruct (Z.eqb_spec j' ((i + 1) / 2)) as [E'|E']; try (exfalso; lia); [|reflexivity].
+    destruct (Z.eqb_spec (i mod 2) 1), (Z.eqb_spec ((i + 1) mod 2) 0); try reflexivity; lia.
+  - set (P := 2 ^ Z.of_nat d) in *. lia.
+  - unfold set_nthZ. rewrite set_nth_length. lia.
+Qed.
+
+(* 4b. one access *)
+Lemma plru_access_proof d bits k :
+  length bits = Z.to_nat (2 ^ Z.of_nat d - 1) -> 0 <= k < 2 ^ Z.of_nat d ->
+  exists bits', pol_access (PLRU (2 ^ Z.of_nat d) bits) k = PLRU (2 ^ Z.of_nat d) bits' /\
+    length bits' = length bits /\
+    heap_tree bits' d 0 = tree_access d k (heap_tree bits d 0).
+Proof.
+  intros Hlen Hk. pose proof (pow2_pos d) as HP. cbn [pol_access]. rewrite plru_depth_pow2.
+  eexists. split; [reflexivity|]. split; [apply access_loop_length|].
+  rewrite !heap_tree_ht1. change (0 + 1) with 1.
+  rewrite <- (acc1_tree d (fbits bits) 1 k) by lia.
+  apply ht1_ext. intros j Hj. apply insub_ge in Hj; [|lia].
+  rewrite access_loop_acc1 by (set (P := 2 ^ Z.of_nat d) in *; lia).
+  f_equal. lia.
+Qed.
+
+(** * Part 6: spec-level facts about the tree, and runs of the model *)
+Lemma heap_tree_complete bits d : forall i, complete d (heap_tree bits d i).
+Proof. induction d as [|d IH]; intros i; cbn [heap_tree]; constructor; apply IH. Qed.
+
+Lemma tree_access_complete d : forall k t, complete d t -> complete d (tree_access d k t).
+Proof.
+  induction d as [|d IH]; intros k t Hc; inversion Hc; subst; cbn [tree_access]; [constructor|].
+  destruct (k <? 2 ^ Z.of_nat d); constructor; try assumption; apply IH; assumption.
+Qed.
+
+Lemma tree_access_idem d : forall k t, tree_access d k (tree_access d k t) = tree_access d k t.
+Proof.
+  induction d as [|d IH]; intros k t; [reflexivity|]. destruct t as [|b l r]; [reflexivity|].
+  change (tree_access (S d) k (Node b l r)) with
+    (if k <? 2 ^ Z.of_nat d then Node true (tree_access d k l) r
+     else Node false l (tree_access d (k - 2 ^ Z.of_nat d) r)).
+  destruct (k <? 2 ^ Z.of_nat d) eqn:E; cbn [tree_access]; rewrite E, IH; reflexivity.
+Qed.
+
+(* the block just accessed is never the next victim *)
+Lemma tree_victim_access d k t : complete (S d) t -> 0 <= k < 2 ^ Z.of_nat (S d) ->
+  tree_victim (S d) (tree_access (S d) k t) <> k.
+Proof.
+  intros Hc Hk. inversion Hc as [|? b l r Hl Hr]; subst. cbn [tree_access].
+  destruct (Z.ltb_spec k (2 ^ Z.of_nat d)) as [Hlt|Hge]; cbn [tree_victim].
+  - pose proof (tree_victim_range d r). lia.
+  - pose proof (tree_victim_range d l). lia.
+Qed.
+
+Lemma repeat_false_nthZ m i : nthZ (repeat false m) i false = false.
+Proof. unfold nthZ. apply nth_repeat. Qed.
+
+Lemma heap_tree_init m d : forall i, heap_tree (repeat false m) d i = tree_init d.
+Proof.
+  induction d as [|d IH]; intros i; cbn [heap_tree tree_init]; [reflexivity|].
+  rewrite repeat_false_nthZ, !IH. reflexivity.
+Qed.
+
+Lemma plru_run_proof : forall d h, in_range (2 ^ Z.of_nat d) h ->
+  exists bits, run (pol_init true (2 ^ Z.of_nat d)) h = PLRU (2 ^ Z.of_nat d) bits /\
+    length bits = Z.to_nat (2 ^ Z.of_nat d - 1) /\
+    heap_tree bits d 0 = fold_left (fun t k => tree_access d k t) h (tree_init d) /\
+    complete d (heap_tree bits d 0) /\
+    0 <= pol_victim (run (pol_init true (2 ^ Z.of_nat d)) h) < 2 ^ Z.of_nat d.
+Proof.
+  intros d h. 
+  assert (Hmain : in_range (2 ^ Z.of_nat d) h ->
+    exists bits, run (pol_init true (2 ^ Z.of_nat d)) h = PLRU (2 ^ Z.of_nat d) bits /\
+    length bits = Z.to_nat (2 ^ Z.of_nat d - 1) /\
+    heap_tree bits d 0 = fold_left (fun t k => tree_access d k t) h (tree_init d)).
+  { induction h as [|k h IH] using rev_ind; intros Hr.
+    - eexists. split; [reflexivity|]. split; [apply repeat_length|]. apply heap_tree_init.
+    - apply in_range_snoc in Hr. destruct Hr as [Hr Hk].
+      destruct (IH Hr) as (bits & Hrun & Hlen & Htree).
+      destruct (plru_access_proof d bits k Hlen Hk) as (bits' & Hacc & Hlen' & Htree').
+      exists bits'. split; [rewrite run_snoc, Hrun; exact Hacc|].
+      split; [congruence|]. rewrite fold_left_app. cbn [fold_left]. rewrite <- Htree. exact Htree'. }
+  intros Hr. destruct (Hmain Hr) as (bits & Hrun & Hlen & Htree).
+  exists bits. repeat split; try assumption; [apply heap_tree_complete| |];
+    rewrite Hrun, plru_victim_proof; apply tree_victim_range.
+Qed.
+
+(** * Part 7: PLRU idempotence, for every associativity, array and index *)
+(* the access loop is a sequence of writes that does not depend on the array *)
+Fixpoint writes (d : nat) (i : Z) : list (nat * bool) :=
+  match d with
+  | O => []
+  | S d' => (Z.to_nat ((i - 1) / 2), i mod 2 =? 1) :: writes d' ((i - 1) / 2)
+  end.
+
+Definition apply_writes {A} (ws : list (nat * A)) (l : list A) : list A :=
+  fold_left (fun l w => set_nth l (fst w) (snd w)) ws l.
+
+Fixpoint lookup {A} (ws : list (nat * A)) (j : nat) (x : A) : A :=
+  match ws with
+  | [] => x
+  | w :: t => lookup t j (if Nat.eqb j (fst w) then snd w else x)
+  end.
+
+Lemma access_loop_writes d : forall i bits, plru_access_loop d i bits = apply_writes (writes d i) bits.
+Proof.
+  induction d as [|d IH]; intros i bits; cbn [plru_access_loop writes]; [reflexivity|].
+  rewrite IH. reflexivity.
+Qed.
+
+Lemma apply_writes_length {A} (ws : list (nat * A)) : forall l, length (apply_writes ws l) = length l.
+Proof.
+  induction ws as [|w t IH]; intros l; [reflexivity|].
+  unfold apply_writes in *. cbn [fold_left]. rewrite IH. apply set_nth_length.
+Qed.
+
+Lemma apply_writes_nth {A} (ws : list (nat * A)) (d : A) : forall l j, (j < length l)%nat ->
+  nth j (apply_writes ws l) d = lookup ws j (nth j l d).
+Proof.
+  induction ws as [|w t IH]; intros l j Hj; [reflexivity|].
+  unfold apply_writes in *. cbn [fold_left lookup]. rewrite IH by (rewrite set_nth_length; exact Hj).
+  f_equal. destruct (Nat.lt_ge_cases (fst w) (length l)) as [Hlt|Hge].
+  - apply nth_set_nth. exact Hlt.
+  - destruct (Nat.eqb_spec j (fst w)) as [E|E]; [lia|]. f_equal.
+    clear -Hge. revert Hge. generalize (fst w) as p. induction l as [|y l IHl]; intros p Hp; [reflexivity|].
+    destruct p; cbn [length] in Hp; [lia|]. cbn [set_nth]. rewrite IHl by lia. reflexivity.
+Qed.
+
+Lemma lookup_cases {A} (ws : list (nat * A)) j :
+  (forall x, lookup ws j x = x) \/ (exists v, forall x, lookup ws j x = v).
+Proof.
+  induction ws as [|w t IH]; [left; reflexivity|]. cbn [lookup].
+  destruct IH as [Hid|[v Hv]].
+  - destruct (Nat.eqb j (fst w)).
+    + right. exists (snd w). intros x. apply Hid.
+    + left. intros x. apply Hid.
+  - right. exists v. intros x. apply Hv.
+Qed.
+
+Lemma apply_writes_idem {A} (ws : list (nat * A)) (l : list A) :
+  apply_writes ws (apply_writes ws l) = apply_writes ws l.
+Proof.
+  destruct l as [|y l].
+  { assert (Hnil : apply_writes ws (@nil A) = []).
+    { pose proof (apply_writes_length ws (@nil A)) as Hl.
+      destruct (apply_writes ws []); [reflexivity | discriminate]. }
+    rewrite !Hnil. reflexivity. }
+  apply (nth_ext _ _ y y); [rewrite !apply_writes_length; reflexivity|].
+  intros j Hj. rewrite !apply_writes_length in Hj.
+  rewrite apply_writes_nth by (rewrite apply_writes_length; exact Hj).
+  rewrite apply_writes_nth by exact Hj.
+  destruct (lookup_cases ws j) as [Hid|[v Hv]]; [rewrite !Hid | rewrite !Hv]; reflexivity.
+Qed.
+
+(* 5b. *)
+Lemma plru_idem a bits k :
+  pol_access (pol_access (PLRU a bits) k) k = pol_access (PLRU a bits) k.
+Proof. cbn [pol_access]. f_equal. rewrite !access_loop_writes. apply apply_writes_idem. Qed.
+
+(* 5, both policies *)
+Lemma access_idem_proof : forall p i,
+  (match p with LRU o => NoDup o | PLRU _ _ => True end) ->
+  pol_access (pol_access p i) i = pol_access p i.
+Proof. intros [o|a bits] i H; [apply lru_idem_NoDup; exact H | apply plru_idem]. Qed.
+
+Lemma access_idem_reachable : forall plru n h i, 0 <= n -> in_range n h ->
+  let p := run (pol_init plru n) h in pol_access (pol_access p i) i = pol_access p i.
+Proof.
+  intros [|] n h i Hn Hr; cbv zeta.
+  - assert (Hp : exists a bits, run (pol_init true n) h = PLRU a bits).
+    { clear Hr. induction h as [|k h IH] using rev_ind; [eexists; eexists; reflexivity|].
+      destruct IH as (a & bits & E). rewrite run_snoc, E. eexists; eexists; reflexivity. }
+    destruct Hp as (a & bits & E). rewrite E. apply plru_idem.
+  - apply lru_idem_reachable; assumption.
+Qed.
+
+(** * Part 8: packaged statements for Props/C10.v *)
+Lemma plru_tree_refines_proof : forall (d : nat) (bits : list bool),
+  let a := 2 ^ Z.of_nat d in
+  pol_victim (PLRU a bits) = tree_victim d (heap_tree bits d 0) /\
+  0 <= pol_victim (PLRU a bits) < a /\
+  (length bits = Z.to_nat (a - 1) ->
+   forall k, 0 <= k < a ->
+     exists bits', pol_access (PLRU a bits) k = PLRU a bits' /\
+       length bits' = length bits /\
+       heap_tree bits' d 0 = tree_access d k (heap_tree bits d 0)).
+Proof.
+  intros d bits a. subst a. split; [apply plru_victim_proof|]. split.
+  - rewrite plru_victim_proof. apply tree_victim_range.
+  - intros Hlen k Hk. apply plru_access_proof; assumption.
+Qed.
+
+Lemma last_access_meaning_proof : forall h i,
+  (last_access h i = None <-> ~ In i h) /\
+  (forall p, last_access h i = Some p ->
+     nth_error h p = Some i /\ forall q, (p < q)%nat -> nth_error h q <> Some i).
+Proof. intros h i. split; [apply last_access_None | intros p; apply last_access_Some]. Qed.
+
+Lemma older_strict_total_proof : forall h i j,
+  ~ older h i i /\ (older h i j -> older h j i -> False) /\ (i <> j -> older h i j \/ older h j i).
+Proof.
+  intros h i j. split; [apply older_irrefl|]. split; [apply older_asym | apply older_total].
+Qed.
